@@ -207,19 +207,35 @@ theorem value_installed_before_dispatch (w : World) (p : Nat) (v : Int) (hp : p 
   simp [getVal, List.getD, hp]
 
 /-- **C03 (skipped only when equal).**  Outside `trigger`, a watcher registered for `p` is left
-out exactly when it is changes-only and the new value equals the old one. -/
+out exactly when it is changes-only and the new value equals the old one - and is a value that
+has an equality at all (numbers; a callable held by a Dynamic parameter never compares equal,
+`opaqueBase`). -/
 theorem skipped_iff_changes_only_and_equal (w : World) (p : Nat) (old v : Int) (wt : Watcher)
     (hreg : wt ∈ regsFor w p) (ht : w.trigger = false) :
-    wt ∉ expectedFor w p old v ↔ (wt.onlychanged = true ∧ old = v) := by
+    wt ∉ expectedFor w p old v ↔ (wt.onlychanged = true ∧ old = v ∧ v < opaqueBase) := by
   have hmem : wt ∈ sortByPrec (regsFor w p) := (List.Perm.mem_iff (sortByPrec_perm _)).2 hreg
-  simp only [expectedFor, List.mem_filter, hmem, true_and, passes, ht, Bool.false_or, Bool.or_eq_true,
-    Bool.not_eq_true', bne_iff_ne, ne_eq, not_or, Bool.not_eq_false, Decidable.not_not]
+  simp only [expectedFor, List.mem_filter, hmem, true_and, passes, same, ht, Bool.false_or, Bool.or_eq_true,
+    Bool.not_eq_true', not_or, Bool.not_eq_false, Bool.and_eq_true, beq_iff_eq, decide_eq_true_eq]
+  constructor
+  · rintro ⟨h1, h2, h3⟩; exact ⟨h1, h2, h2 ▸ h3⟩
+  · rintro ⟨h1, h2, h3⟩; exact ⟨h1, h2, h2 ▸ h3⟩
 
 /-- **C03 (a genuine change is never suppressed).** -/
 theorem genuine_change_reaches_every_watcher (w : World) (p : Nat) (old v : Int) (wt : Watcher)
     (hreg : wt ∈ regsFor w p) (hne : old ≠ v) : wt ∈ expectedFor w p old v := by
   have hmem : wt ∈ sortByPrec (regsFor w p) := (List.Perm.mem_iff (sortByPrec_perm _)).2 hreg
-  simp [expectedFor, List.mem_filter, hmem, passes, hne]
+  simp [expectedFor, List.mem_filter, hmem, passes, same, hne]
+
+/-- **C03 (objects without an equality are never filtered).**  Installing a callable - even the very
+object already held - reaches every watcher, changes-only or not. -/
+theorem opaque_value_reaches_every_watcher (w : World) (p : Nat) (old v : Int) (wt : Watcher)
+    (hreg : wt ∈ regsFor w p) (hv : opaqueBase ≤ v) : wt ∈ expectedFor w p old v := by
+  have hmem : wt ∈ sortByPrec (regsFor w p) := (List.Perm.mem_iff (sortByPrec_perm _)).2 hreg
+  by_cases h : old = v
+  · subst h
+    have : ¬ old < opaqueBase := by omega
+    simp [expectedFor, List.mem_filter, hmem, passes, same, this]
+  · simp [expectedFor, List.mem_filter, hmem, passes, same, h]
 
 /-- **C03 (order).**  The invocation order is ascending precedence … -/
 theorem order_ascending_precedence (w : World) (p : Nat) (old v : Int) :
